@@ -60,6 +60,7 @@ void COTmrClear(CO_TMR *tmr)
 {
     CO_NODE    *node = tmr->Node;
     CO_TPDO    *pdo;
+    CO_HBCONS  *hbc;
     uint16_t    num;
 
     /* delete heartbeat timer */
@@ -67,6 +68,32 @@ void COTmrClear(CO_TMR *tmr)
         COTmrDelete(tmr, node->Nmt.Tmr);
         node->Nmt.Tmr = -1;
     }
+
+    /* delete heartbeat consumer timers */
+    hbc = node->Nmt.HbCons;
+    while (hbc != 0) {
+        if (hbc->Tmr > -1) {
+            COTmrDelete(tmr, hbc->Tmr);
+            hbc->Tmr = -1;
+        }
+        hbc = hbc->Next;
+    }
+
+    /* delete sync producer timer */
+    if (node->Sync.Tmr > -1) {
+        COTmrDelete(tmr, node->Sync.Tmr);
+        node->Sync.Tmr = -1;
+    }
+
+#if USE_CSDO
+    /* delete SDO client timeout timers */
+    for (num = 0; num < CO_CSDO_N; num++) {
+        if (node->CSdo[num].Tfer.Tmr > -1) {
+            COTmrDelete(tmr, node->CSdo[num].Tfer.Tmr);
+            node->CSdo[num].Tfer.Tmr = -1;
+        }
+    }
+#endif
 
     /* check all tpdo timers */
     for (num = 0; num < CO_TPDO_N; num++) {
